@@ -44,8 +44,21 @@ def _only(flags, *allowed):
     return bool(core) and all(f in allowed for f in core)
 
 
+DERIVED = ("SubFrozen", "SubNoCast", "SubAuto")     # classes derived from an already decorated base (TensorClass["..."])
+FROZEN = ("Frozen", "SubFrozen")
+
+
+def _dictarg(c):
+    a = c.get("args") or []
+    return bool(a) and isinstance(a[0], list) and a[0] and (a[0][0] == "dct" or a[0][:2] == ["like", "dict"])
+
+
+def _msg(o):
+    return o.get("msg", "") if isinstance(o, dict) else ""
+
+
 PATTERNS = [
-    # --- explicit methods of tensorclass.py that return something else than `self`
+    # --- explicit methods of tensorclass.py that return something else than a tensorclass
     ("D150-set_at_-returns-underlying-td", lambda c, a, b, f: c["name"] == "set_at_" and c["mode"] == "call" and not c.get("embed")
         and _is_ref(_res(b), "SELF") and _is_ref(_res(a), "SELFTD") and "post" not in f and "nontensor" not in f),
     ("D151-del_-returns-none", lambda c, a, b, f: c["name"] == "del_" and c["mode"] == "call" and not c.get("embed")
@@ -58,21 +71,16 @@ PATTERNS = [
         and isinstance(_res(b), list) and _res(b)[0] == "namedtuple" and isinstance(_res(a), list) and _res(a)[0] == "tuple"
         and [v for _, v in Lb.erase(_res(b))[2]] == Lb.erase(_res(a))[1]),
     ("D155-update-rejects-is_leaf", lambda c, a, b, f: c["name"] == "update" and not c.get("embed") and "is_leaf" in c.get("kwargs", {})
-        and _tc_exc(a) == "TypeError" and "is_leaf" in a.get("msg", "")),
-    ("D156-update_at_-passes-index-kw", lambda c, a, b, f: c["name"] == "update_at_" and not c.get("embed") and _tc_exc(a) == "TypeError"
-        and "'index'" in a.get("msg", "")),
-    ("D157-update_at_-ignores-index-for-tensorclass-value", lambda c, a, b, f: c["name"] == "update_at_" and not c.get("embed")
-        and c.get("args") and isinstance(c["args"][0], list) and c["args"][0][:2] == ["likeidx", "tc"]
-        and (_tc_exc(a) == "RuntimeError" or "post" in f)),
+        and _tc_exc(a) == "TypeError" and "is_leaf" in _msg(a)),
+    ("D156-update_at_-never-updates-at-the-index", lambda c, a, b, f: c["name"] == "update_at_" and c["mode"] == "call" and not c.get("embed")
+        and b.get("status") == "ok" and (_tc_exc(a) in ("TypeError", "RuntimeError", "ValueError") or _only(f, "post"))),
     ("D158-load_memmap_-does-not-load", lambda c, a, b, f: c["name"] in ("load_memmap_", "load_") and c.get("recipe") == "memmap"
-        and not c.get("embed") and a.get("status") == "ok" and b.get("status") == "ok" and _only(f, "content", "post")),
-    ("D159-split_keys-inplace-remainder-not-self", lambda c, a, b, f: c["name"] == "split_keys" and not c.get("embed")
-        and c.get("kwargs", {}).get("inplace") == ["lit", True] and _only(f, "content", "wrap") and a.get("status") == "ok"
-        and Lb.strip_refs(Lb.erase(_res(a))) == Lb.strip_refs(Lb.erase(_res(b)))),
+        and a.get("status") == "ok" and ((b.get("status") == "ok" and _only(f, "content", "post", "wrap"))
+                                         or (b.get("status") == "raise" and "locked" in _msg(b).lower()))),
     ("D160-non_tensor_items-lists-none-fields-only", lambda c, a, b, f: c["name"] == "non_tensor_items" and not c.get("embed")
         and a.get("status") == "ok" and _only(f, "content")),
     ("D161-set-inplace-on-locked-raises", lambda c, a, b, f: c["name"] == "set" and not c.get("embed") and _tc_exc(a) == "RuntimeError"
-        and "locked" in a.get("msg", "").lower() and c.get("kwargs", {}).get("inplace") == ["lit", True]),
+        and "locked" in _msg(a).lower() and c.get("kwargs", {}).get("inplace") == ["lit", True]),
     # --- operators absent from the class (Python looks dunders up on the type: __getattr__ cannot supply them)
     ("D162-contains-falls-back-to-iteration", lambda c, a, b, f: c["name"] == "__contains__" and c["mode"] == "op" and not c.get("embed")
         and a.get("status") == "ok" and _res(a) == ["PY", "False"] and _res(b) == ["PY", "True"]),
@@ -81,10 +89,38 @@ PATTERNS = [
     # --- torch functions overridden for tensordicts but refused for tensorclasses
     ("D164-torch-function-not-passed-through", lambda c, a, b, f: c["mode"] == "torchfn" and not c.get("embed")
         and c["name"] in ("transpose", "masked_select", "where") and _tc_exc(a) == "TypeError" and b.get("status") == "ok"),
+    ("D165-enter-returns-underlying-td", lambda c, a, b, f: c["name"] in ("__enter__", "__exit__") and c["mode"] == "op" and not c.get("embed")
+        and _is_ref(_res(b), "SELF") and _is_ref(_res(a), "SELFTD")),
+    # --- classes derived from an already decorated base: the classmethod loop overwrites inherited class-level entries
+    ("D166-derived-class-from_dict-bound-to-instance", lambda c, a, b, f: c["cls"] in DERIVED and not c.get("embed") and c["mode"] == "call"
+        and (c["name"] == "from_dict" or (c["name"] in ("update", "update_", "update_at_") and _dictarg(c)))),
+    ("D167-derived-class-_load_memmap-replaced", lambda c, a, b, f: c["cls"] in DERIVED and c.get("recipe") == "memmap"
+        and _tc_exc(a) == "KeyError" and "device" in _msg(a) and b.get("status") == "ok"),
+    # --- stacking
+    ("D168-stack-of-lazily-stacked-tensorclasses-raises", lambda c, a, b, f: c["name"] in ("stack", "maybe_dense_stack", "lazy_stack")
+        and c["layout"] in ("lazy", "lazyhet") and _tc_exc(a) == "AttributeError" and "_from_tensordict" in _msg(a) and b.get("status") == "ok"),
+    ("D169-stack-drops-_non_tensordict-payloads", lambda c, a, b, f: c["name"] in ("stack", "maybe_dense_stack") and c["mode"] == "call"
+        and not c.get("embed") and c["layout"] == "legacy" and _only(f, "nontensor")),
+    # --- serialisation
+    ("D170-frozen-tensorclass-cannot-be-unpickled", lambda c, a, b, f: c["cls"] in FROZEN and c["name"] in ("__getstate__", "__setstate__")
+        and _tc_exc(a) == "FrozenInstanceError" and b.get("status") == "ok"),
+    ("D171-consolidate-inplace-with-nested-lazy-tensorclass", lambda c, a, b, f: c["name"] == "consolidate" and c.get("embed") == "outer"
+        and c["layout"] in ("lazy", "lazyhet") and _tc_exc(a) == "ValueError" and "LazyStackedTensorDict" in _msg(a) and b.get("status") == "ok"),
+    ("D172-load_state_dict-with-nested-tensorclass", lambda c, a, b, f: c["name"] == "load_state_dict" and c.get("embed") == "outer"
+        and _tc_exc(a) == "KeyError" and "__batch_size" in _msg(a) and b.get("status") == "ok"),
+    ("D173-grad-tests-a-bound-method", lambda c, a, b, f: c["name"] == "grad" and c["mode"] == "attr" and not c.get("embed")
+        and _tc_exc(a) == "RuntimeError" and "Expected a TensorDictBase" in _msg(a) and _res(b) == ["PY", "None"]),
+    ("D174-consolidate-to-file-with-nested-tensorclass", lambda c, a, b, f: c.get("recipe") == "consolidated" and c.get("embed") == "outer"
+        and _tc_exc(a) == "RuntimeError" and "json" in _msg(a) and b.get("status") == "ok"),
+    ("D175-indices-reductions-drop-nested-class", lambda c, a, b, f: c["name"] in ("max", "min", "cummax", "cummin") and c.get("embed") == "outer"
+        and a.get("status") == "ok" and _only(f, "wrap")),
 ]
-
-
-EXTRA_PATTERNS = []
+EXTRA_PATTERNS = [
+    ("D167-derived-class-_load_memmap-replaced", lambda c, probs, f: c["stream"] == "chains" and c["cls"] in DERIVED and probs
+        and " memmap: " in probs[0] and "raises KeyError" in probs[0] and "device" in probs[0]),
+    ("D170-frozen-tensorclass-cannot-be-unpickled", lambda c, probs, f: c["stream"] == "chains" and c["cls"] in FROZEN and probs
+        and " pickle: " in probs[0] and "raises FrozenInstanceError" in probs[0]),
+]
 
 
 def classify(case, o_tc, o_td, flags, probs):
